@@ -35,9 +35,28 @@ pub struct Scope {
     pub parent: Option<Rc<Scope>>,
 }
 
+thread_local! {
+    /// every scope created on this thread since the last `release_scopes` (closures stored in variables
+    /// of the scope they capture are reference cycles: a finished model run empties its scopes)
+    static SCOPES: RefCell<Vec<std::rc::Weak<Scope>>> = RefCell::new(Vec::new());
+}
+
+/// Empties every scope created on this thread, which breaks the reference cycles between captured
+/// variables and closures of a finished model run.
+pub fn release_scopes() {
+    let all = SCOPES.with(|s| std::mem::take(&mut *s.borrow_mut()));
+    for w in all {
+        if let Some(s) = w.upgrade() {
+            s.vars.borrow_mut().clear();
+        }
+    }
+}
+
 impl Scope {
     pub fn new(parent: Option<Rc<Scope>>) -> Rc<Scope> {
-        Rc::new(Scope { vars: RefCell::new(Vec::new()), parent })
+        let s = Rc::new(Scope { vars: RefCell::new(Vec::new()), parent });
+        SCOPES.with(|all| all.borrow_mut().push(Rc::downgrade(&s)));
+        s
     }
     pub fn declare(&self, v: V) -> Rc<RefCell<V>> {
         let cell = Rc::new(RefCell::new(v));
